@@ -75,6 +75,10 @@ def check_model(model, cfg, x, G, rng, sync=True, shifts=True):
     Y = probes.blocks(y)
     S = mlgen.trace_scale(x, y, *[e["out"] for e in leaf_events])
     layers = [e["callee"] for e in leaf_events]
+    finite = all(np.all(np.isfinite(v)) for v in Y.values()) and all(np.all(np.isfinite(np.asarray(v))) for e in leaf_events for v in e["out"].data.values())
+    if not finite or not np.isfinite(S) or S > 1e8:
+        # activations near the float32 overflow of squared norms: not a meaningful execution to judge
+        return {"viols": [], "noise": 0.0, "kappa": None, "n_events": len(leaf_events), "layers": layers, "status": "ill-conditioned", "why": f"activation scale {S:.3g}", "Y": Y}
     out = {"viols": [], "noise": 0.0, "kappa": None, "n_events": len(leaf_events), "layers": layers, "status": "held", "Y": Y}
     # near-tie guard on every MaxNormPool event
     for e in leaf_events:
